@@ -760,8 +760,25 @@ fn gate(repo: &Path) -> R {
     let types_rs = find::parse(repo, "src/typechecker/types.rs")?;
     let named = find::func(&types_rs, "named", Some("Type"))?;
     let named_s = toks(&named.block);
-    if named_s != "{Type::Name(TypeName{name:ResolvedName{scope:ScopeRef::GLOBAL,ident:ident.into(),},arguments,})}" {
-        return Err(format!("Type::named: body outside the model: `{named_s}`"));
+    let named_ok = (|| -> Option<bool> {
+        // Type::Name(TypeName { name: ResolvedName { scope: ScopeRef::GLOBAL, ident: ident.into() }, arguments }), fields in any order
+        let [Stmt::Expr(Expr::Call(c), None)] = &named.block.stmts[..] else { return None };
+        if toks(&c.func) != "Type::Name" || c.args.len() != 1 {
+            return None;
+        }
+        let Expr::Struct(tn) = &c.args[0] else { return None };
+        if path_str(&tn.path) != "TypeName" || tn.rest.is_some() || tn.fields.len() != 2 {
+            return None;
+        }
+        let field = |n: &str| tn.fields.iter().find(|f| f.member.to_token_stream().to_string() == n).map(|f| &f.expr);
+        if toks(field("arguments")?) != "arguments" {
+            return None;
+        }
+        let name = Tr::default().val(field("name")?).ok()?;
+        Some(name == "(ResolvedName.mk ScopeRef.GLOBAL ident)")
+    })();
+    if named_ok != Some(true) {
+        return Err(format!("Type::named: body outside the model (expected a TypeName in ScopeRef::GLOBAL with the given identifier and arguments): `{named_s}`"));
     }
     let scope_rs = find::parse(repo, "src/typechecker/scope.rs")?;
     let ast_rs = find::parse(repo, "src/ast.rs")?;
